@@ -1,5 +1,6 @@
 import Cirbo.Proofs.Rewrite
 import Cirbo.Proofs.Rename
+import Cirbo.Proofs.ReplaceWfs
 /-!
 # C19 — Local rewrites keep or specialise the function exactly as documented
 
@@ -9,7 +10,8 @@ import Cirbo.Proofs.Rename
 -- OBLIGATION: c19_rename_references_follow
 -- OBLIGATION: c19_rename_keeps_function
 -- OBLIGATION: c19_rename_keeps_invariant
--- PARTIAL: replace_subcircuit (equivalent replacement keeps the truth table and well-formedness or raises a documented error) is modelled one-to-one (Mutate2.lean replaceSubcircuit incl. slice collection, block removal, re-insertion, restored users, final cycle check) and compared field by field with the code on many slices per circuit, with truth tables and checkWFU as oracles, but its theorem is not proved yet.
+-- OBLIGATION: c19_replace_subcircuit_wellformed
+-- PARTIAL: replace_subcircuit: that the result is well formed whenever the call returns is proved (c19_replace_subcircuit_wellformed — for ANY replacement, equivalent or not). That an equivalent replacement keeps the truth table is not proved yet: the call is modelled one-to-one (Mutate2.lean replaceSubcircuit incl. slice collection, block removal, re-insertion, restored users, whole-graph cycle check) and compared field by field with the code on many slices per circuit (identical, renamed, re-expressed and structurally entangled replacements), with truth tables as the search oracle.
 -/
 namespace Cirbo
 open Circuit
@@ -61,11 +63,33 @@ theorem c19_rename_keeps_function {c c' : Circuit} {old new : Label} (hw : WFS c
 theorem c19_rename_keeps_invariant {c c' : Circuit} {old new : Label} (hw : WFS c)
     (h : c.renameGate old new = .ok c') : WFS c' := renameGate_wfs hw h
 
+/-- **`replace_subcircuit` leaves the circuit well formed** whenever it returns: for a well-formed
+circuit and replacement and mappings with distinct keys (Python dicts), after the renames, the
+removal of the slice, the re-insertion of the replacement's gates, the restored outputs and users
+and the whole-graph cycle check, every clause of the C02 invariant holds again (operands and outputs
+exist, users index = operand multiset, input list, acyclic, blocks). No equivalence of the
+replacement is needed for this half. `uuid` is the fresh uuid of the temporary block (any value). -/
+theorem c19_replace_subcircuit_wellformed {c sub c' : Circuit} {im om : List (Label × Label)} {uuid k' : Nat}
+    (hw : WFS c) (hs : WFS sub) (hik : (im.map (·.1)).Nodup) (hok : (om.map (·.1)).Nodup)
+    (h : c.replaceSubcircuit sub im om uuid = .ok (c', k')) : WFS c' :=
+  replaceSubcircuit_wfs hw hs hik hok h
+
+open GateType in
+/-- non-vacuity: a two-gate slice replaced by one gate -/
+example : ((Circuit.replaceSubcircuit
+    ⟨[⟨"a", INPUT, []⟩, ⟨"b", INPUT, []⟩, ⟨"x", NOT, ["a"]⟩, ⟨"y", NOR, ["x", "b"]⟩, ⟨"z", NOT, ["y"]⟩],
+      ["a", "b"], ["z"], [("a", ["x"]), ("b", ["y"]), ("x", ["y"]), ("y", ["z"])], []⟩
+    ⟨[⟨"p", INPUT, []⟩, ⟨"q", INPUT, []⟩, ⟨"r", GT, ["p", "q"]⟩], ["p", "q"], ["r"], [("p", ["r"]), ("q", ["r"])], []⟩
+    [("a", "p"), ("b", "q")] [("y", "r")] 0).toOption.map
+      (fun p => (p.1.gates.map (·.label), p.1.usersOf "r", p.2))) = some (["z", "p", "q", "r"], ["z"], 1) := by
+  decide
+
 #print axioms c19_replace_inputs_is_cofactor
 #print axioms c19_remove_gate
 #print axioms c19_remove_gate_rejects
 #print axioms c19_rename_references_follow
 #print axioms c19_rename_keeps_function
 #print axioms c19_rename_keeps_invariant
+#print axioms c19_replace_subcircuit_wellformed
 
 end Cirbo
